@@ -143,6 +143,24 @@ def check_linear(rng, lbs, ubs, viols, counts, coeff_nan=False):
         except ValueError:
             counts["scipy_rejected"] = counts.get("scipy_rejected", 0) + 1
             return
+    if rng.random() < 0.2:
+        # the SAME constraint objects were used before with other limits
+        # (parameter sweep): the translation follows the current limits
+        saved = [(np.array(o.lb, copy=True), np.array(o.ub, copy=True))
+                 for o in objs]
+        try:
+            with warnings.catch_warnings():
+                warnings.simplefilter("ignore")
+                for o in objs:
+                    o.lb = np.asarray(o.lb, float) - 1.5
+                    o.ub = np.asarray(o.ub, float) + 0.5
+                l0, _ = cmain._get_constraints(objs)
+                LinearConstraints(l0, n, False)
+        except Exception:  # noqa: BLE001
+            pass
+        for o, (lo_, hi_) in zip(objs, saved):
+            o.lb, o.ub = lo_, hi_
+        counts["reused_objects"] = counts.get("reused_objects", 0) + 1
     with warnings.catch_warnings():
         warnings.simplefilter("ignore")
         lin_list, nl_list = cmain._get_constraints(objs)
